@@ -70,7 +70,10 @@ class Report:
     def ob(self, rule, instance, ok, detail="", loc="", key=None, witness=None):
         o = Ob(rule, instance, bool(ok), detail, loc, key, witness)
         self.obs.append(o)
-        if self.verbose or not o.ok:
+        if not o.ok:
+            self._printed = getattr(self, "_printed", {})
+            self._printed[o.key] = self._printed.get(o.key, 0) + 1
+        if self.verbose or (not o.ok and self._printed[o.key] <= 2):
             print("  [%s] %s :: %s %s%s" % ("ok" if o.ok else "FAIL", rule, instance,
                                             ("@ " + loc + " ") if loc else "", ("-- " + detail) if detail else ""))
         return o.ok
@@ -103,6 +106,10 @@ class Report:
             printed.add(o.key)
             print("KNOWN-FINDING: property=%s %s -- %s" % (self.prop, o.key, open_keys[o.key].get("what", o.detail)))
         os.makedirs(EVIDENCE_DIR, exist_ok=True)
+        if os.path.isdir(REPLAY_DIR):
+            for f in os.listdir(REPLAY_DIR):  # replay files of an earlier run of this property are stale
+                if f.startswith(self.prop + "-"):
+                    os.remove(os.path.join(REPLAY_DIR, f))
         replay_paths = []
         if new:
             os.makedirs(REPLAY_DIR, exist_ok=True)
